@@ -151,6 +151,9 @@ impl Run {
         };
         let tx = self.exec(&op);
         let fault_hit = if armed { disarm_fault() } else { false };
+        if !tx.ok {
+            symrt::log_event(format!("failed-tx message tree: {}", tx.log.join(" > ")));
+        }
         let post = self.snap();
         if fault_hit {
             prove_d(
